@@ -57,13 +57,14 @@ def order_options():
     return opts
 
 
-FTS = [None, "exon", ("exon", "gene"), ["CDS", "mRNA", "exon"], "nosuchtype"]
+LONG_FT = ["t%03d" % i for i in range(300)] + ["exon"] + ["u%03d" % i for i in range(320)] + ["gene"] + ["v%03d" % i for i in range(40)]
+FTS = [None, "exon", ("exon", "gene"), ["CDS", "mRNA", "exon"], "nosuchtype", LONG_FT]
 STRANDS = [None, "+", "-", "."]
 
 
 def bounds(tier):
     return dict(databases=["small"] if tier == "quick" else ["small", "large"], features=[len(ROWS)] + ([30] if tier != "quick" else []),
-                order_by_options=len(order_options()), featuretypes=[repr(f) for f in FTS], strands=STRANDS)
+                order_by_options=len(order_options()), featuretypes=[repr(f)[:60] for f in FTS], strands=STRANDS)
 
 
 def shards(tier):
@@ -111,7 +112,7 @@ def body(ch, ctx):
     which, method, fi, si = ctx.shard
     db, model = get_db(ctx, which)
     if method == "counts":
-        what = ch.choose("what", ["count:%s" % t for t in (None, "gene", "exon", "CDS", "mRNA", "nosuchtype")] + ["featuretypes", "seqids", "fullscan"])
+        what = ch.choose("what", ["count:%s" % t for t in (None, "gene", "exon", "CDS", "mRNA", "nosuchtype")] + ["featuretypes", "seqids", "fullscan", "interleaved"])
         ctx.nontrivial()
         ctx.outcome((which, what))
         ctx.sample(lambda: dict(db=which, check=what))
@@ -122,6 +123,15 @@ def body(ch, ctx):
             exp = sum(1 for m in model if t is None or m["featuretype"] == t)
             it = len(list(db.features_of_type(t))) if t else len(list(db.all_features()))
             ctx.check(n == exp == it, "count-differs", dict(featuretype=t), count=n, expected=exp, iterated=it)
+        elif what == "interleaved":
+            # the usual summary loop: counts asked while the listing is still being consumed
+            got = {ft: db.count_features_of_type(ft) for ft in db.featuretypes()}
+            exp = {}
+            for m in model:
+                exp[m["featuretype"]] = exp.get(m["featuretype"], 0) + 1
+            ctx.check(got == exp, "interleaved-listing-and-counts-differ", None, got=got, expected=exp)
+            pairs = list(zip(db.featuretypes(), db.seqids()))
+            ctx.check(len(pairs) == min(len(exp), len({m["seqid"] for m in model})), "interleaved-listings-differ", None, got=pairs)
         elif what == "featuretypes":
             got = list(db.featuretypes())
             ctx.check(sorted(got) == sorted({m["featuretype"] for m in model}), "featuretypes-differ", None, got=got)
